@@ -296,6 +296,7 @@ func RunSrv(plan *SrvPlan, tape *Tape, searchSeed uint64, prop string, online fu
 		post(w, res)
 	}
 	res.Probes = w.Probes
+	res.Extra = w.ExtraViol
 	res.PoolViol = len(sim.R.Pools.Viol)
 	res.Summary = w.Summary()
 	sim.finish(res)
